@@ -5,6 +5,7 @@ import (
 	"bytes"
 	"fmt"
 	"os"
+	"runtime"
 	"path/filepath"
 	"strings"
 	"testing"
@@ -251,6 +252,10 @@ func TestPropSpoolOutage(t *testing.T) {
 			// the relay loop asks a connection writer that has already exited to flush); recorded, not reported
 			shutdownDone = true
 			rec.Class("cleanup:shutdown-did-not-return", 1)
+			if os.Getenv("VERIF_DUMP") != "" {
+				buf := make([]byte, 1<<20)
+				fmt.Fprintf(os.Stderr, "SHUTDOWN-HANG schedule %v\n%s\n", sched, buf[:runtime.Stack(buf, true)])
+			}
 		}
 		rec.Case(fmt.Sprintf("%v reconn=%s flush=%s connbuf=%d iobuf=%d spoolbuf=%d maxbytes=%d syncevery=%d pace=%d", sched, reconn, flush, o.ConnBuf, o.IoBuf, o.SpoolBuf, o.SpoolMaxBytes, o.SpoolSyncEvery, pace),
 			spooled && replayed, fmt.Sprintf("went-through-spool=%v", spooled), fmt.Sprintf("replayed-from-redo-buffer=%v", replayed), fmt.Sprintf("drops>0=%v", x.SlowConn()+x.SlowSpool() > 0), fmt.Sprintf("first-phase-down=%v", !phases[0].up))
